@@ -3022,7 +3022,9 @@ def arange(*args: Any, **kwargs: Any) -> Array:
     from math import ceil
     # np.real() suppresses "ComplexWarning: Casting complex values to real
     # discards the imaginary part":
-    size = max(0, ceil((np.real(stop)-np.real(start))/np.real(step)))
+    # .item(): Python numbers, so that an unsigned "stop - start" cannot wrap around.
+    size = max(0, ceil((np.real(stop).item()-np.real(start).item())
+                       / np.real(step).item()))
 
     from pymbolic.primitives import Variable
     return IndexLambda(expr=start + Variable("_0") * step,
